@@ -50,7 +50,7 @@ AUX = [('A', 'v'), ('KEY1', 'hello~world'), ('LONGKEY8', ''), ('UNITS', 'a~value
 def build_cases(tier, faults=False, seed=SEED):
     rng = random.Random(seed + 6); cases = []
     shapes = [([1], [1]), ([2], [0]), ([0], [2]), ([1, 2], [0, 1]), ([2, 0], [1, 1]), ([0, 1, 2], [1, 0, 0])]
-    if tier != 'quick': shapes += [([3, 1], [2, 0]), ([5], [3]), ([1, 1, 1, 1], [0, 1, 2, 0]), ([2, 1, 0, 1, 2], [0, 0, 1, 0, 0]), ([1] * 6, [0, 1, 0, 2, 0, 1]), ([0] * 9, [1, 0, 2, 0, 1, 0, 3, 0, 1])]
+    if tier != 'quick': shapes += [([3, 1], [2, 0]), ([5], [3]), ([1, 1, 1, 1], [0, 1, 2, 0]), ([2, 1, 0, 1, 2], [0, 0, 1, 0, 0]), ([1] * 6, [0, 1, 0, 2, 0, 1]), ([0] * 9, [1 - d if d % 2 else 2 - d for d in range(9)])]     # 9-D with axes of 2 and 3 coefficients (the d-dependent default would give 2.3 million coefficients)
     if faults: shapes = shapes[:4] if tier == 'quick' else shapes[:8]
     for si, (orders, extras) in enumerate(shapes):
         for periods in (0, 1):
